@@ -25,6 +25,7 @@ type c20Args struct {
 	Remote  bool   `json:"remote"`  // plus one goroutine applying a remote pack
 	Packer  bool   `json:"packer"`  // plus one goroutine calling CreatePushPullPack
 	Stmt    bool   `json:"stmt"`    // every statement boundary of transaction.go is a scheduling point
+	Many    bool   `json:"many"`    // positional scenario: the calls delete / update SEVERAL elements at once (ranges)
 }
 
 func init() {
